@@ -219,6 +219,8 @@ static void mk_compact(Call *c, int kind, uint64_t root, int param) {
 }
 static int mk_poly(Call *c, int fn, int shape, int anchor, int scale, int res, uint32_t flags) {
     memset(c, 0, sizeof *c);
+    int capmode = scale >> 4;  // 0 full capacity; 1 count-1; 2 count/2; 3 one slot; 4 zero (polygonToCellsExperimental only)
+    scale &= 15;
     c->kind = 3, c->fn = fn, c->flags = flags;
     if (shape >= 100) {
         // degenerate polygons (error-path / edge inputs): 100 empty outer loop, 101 one vertex, 102 two vertexes, 103 triangle with an empty hole,
@@ -248,6 +250,17 @@ static int mk_poly(Call *c, int fn, int shape, int anchor, int scale, int res, u
     H3Error e = fn == 0 ? ref_maxPolygonToCellsSize(&c->poly.gp, res, 0, &sz) : ref_maxPolygonToCellsSizeExperimental(&c->poly.gp, res, flags <= 3 ? flags : 0, &sz);
     if (e || sz > 20000) return -1;
     if (fn == 2) sz = 0;
+    if (capmode) {
+        if (fn != 1 || flags > 3) return -1;
+        // true number of cells with the reference build, then a capacity below it
+        uint64_t *tmp = calloc(sz + 1, 8);
+        int64_t cnt = 0;
+        if (ref_polygonToCellsExperimental(&c->poly.gp, res, flags, sz, tmp) == 0)
+            for (int64_t i = 0; i < sz; i++) cnt += tmp[i] != 0;
+        free(tmp);
+        if (cnt < 2) return -1;
+        sz = capmode == 1 ? cnt - 1 : capmode == 2 ? cnt / 2 : capmode == 3 ? 1 : 0;
+    }
     c->nout = sz;
     c->cap = sz;
     c->out = malloc((sz + 1) * 8);
@@ -327,6 +340,40 @@ static void ph_disk(void *u) {
                 MC_RUN(OP_DISK, H(g_dom.v[i]), I(k), I(wd));
             }
 }
+// origins that are not valid cells (digit 7 inside the resolution, base cell > 121, deleted sub-sequence, wrong mode, reserved bits): the
+// fast walk fails, the fallback allocates and then errors -- the error path must free and must behave like the default-allocator build
+static void ph_disk_invalid(void *u) {
+    U64Vec bad = {0};
+    int d7[15] = {0}, dk[15] = {0};
+    for (int r = 1; r <= 15; r += (mc_thorough ? 1 : 3)) {
+        for (int pos = 0; pos < r; pos += (mc_thorough ? 1 : 2)) {
+            memset(d7, 0, sizeof d7);
+            d7[pos] = 7;
+            uv_push(&bad, spec_mk(r, 20, d7));   // digit 7 inside the resolution, hexagon base cell
+            uv_push(&bad, spec_mk(r, 4, d7));    // ... pentagon base cell
+            memset(dk, 0, sizeof dk);
+            dk[pos] = 1;
+            uv_push(&bad, spec_mk(r, 4, dk));    // deleted sub-sequence (first non-zero digit 1 under a pentagon)
+            uv_push(&bad, spec_mk(r, 117, dk));
+        }
+        int d3[15] = {3, 3, 3, 3, 3, 3, 3, 3, 3, 3, 3, 3, 3, 3, 3};
+        uint64_t h = spec_mk(r, 20, d3);
+        uv_push(&bad, (h & ~((uint64_t)0x7f << 45)) | ((uint64_t)122 << 45));  // base cell 122
+        uv_push(&bad, (h & ~((uint64_t)0x7f << 45)) | ((uint64_t)127 << 45));  // base cell 127
+        uv_push(&bad, h | ((uint64_t)1 << 63));                                 // high bit
+        uv_push(&bad, h ^ ((uint64_t)3 << 59));                                 // mode 2
+        uv_push(&bad, h | ((uint64_t)5 << 56));                                 // reserved bits
+    }
+    uv_push(&bad, 0);
+    uv_push(&bad, ~(uint64_t)0);
+    uint64_t idx = 0;
+    for (size_t i = 0; i < bad.n; i++)
+        for (int k = 0; k <= 3; k++)
+            for (int wd = 0; wd < 2; wd++, idx++) {
+                if (!mc_mine(idx)) continue;
+                MC_RUN(OP_DISK, H(bad.v[i]), I(k), I(wd));
+            }
+}
 static void ph_nbr(void *u) {
     uint64_t idx = 0;
     OGraph G;
@@ -362,6 +409,21 @@ static void ph_compact_multi(void *u) {
             }
 }
 static int g_polyanchors[160], g_npa;
+// capacities below the true cell count: E_MEMORY_BOUNDS must come back with everything freed (and identically with the default allocator)
+static void ph_poly_capacity(void *u) {
+    static const int shapes[] = {1, 6, 8, 3}, ress[] = {1, 3, 5, 7, 9};
+    uint64_t idx = 0;
+    for (int ai = 0; ai < g_npa; ai += 2)
+        for (int si = 0; si < 4; si++)
+            for (int sc = 1; sc <= 2; sc++)
+                for (int ri = 0; ri < 5; ri++)
+                    for (int fl = 0; fl <= 3; fl++)
+                        for (int cm = 1; cm <= 4; cm++, idx++) {
+                            if (!mc_mine(idx)) continue;
+                            if (mc_expired()) return;
+                            MC_RUN(OP_POLY, I(1), I(shapes[si]), I(g_polyanchors[ai]), I(sc + 16 * cm), I(ress[ri]), I(fl));
+                        }
+}
 static void ph_poly_degenerate(void *u) {
     static const uint32_t flagsE[] = {0, 1, 2, 3, 4, 0x10};
     uint64_t idx = 0;
@@ -399,7 +461,8 @@ int main(int argc, char **argv) {
         if (k == 1 || (k == 0 && an % (mc_thorough ? 3 : 6) == 0) || (k == 5 && an % 3 == 0) || (k == 2 && an % (mc_thorough ? 15 : 40) == 0) || ((k == 3 || k == 4 || k == 6) && an % (mc_thorough ? 2 : 5) == 0)) g_polyanchors[g_npa++] = an;
     }
     snprintf(mc_bounds, sizeof mc_bounds, "fault bound: every single index, every persistent-from index, every pair (n<=14); disks: CLOSE(pentagons,2)+hexagons at %s x k 1..%d x distances NULL/non-NULL; "
-             "areNeighborCells: CLOSE(pentagons,1) at %d resolutions x ball 2; compactCells: 7 kinds x depth 1..%d on 36 roots (12 base cells x res 0,5,10) + full/partial descendant sets of N in {1,2,5,6,7,8,12,20,49,121,122} base cells (3 selections) at res 1..2(3); polygons: %d shapes x %d anchors x %d scales x %d resolutions x (legacy, experimental x 6 flag values, size x 6) + 6 degenerate polygons (empty / 1- / 2-vertex outer loop, empty holes) x anchors x 6 resolutions",
+             "areNeighborCells: CLOSE(pentagons,1) at %d resolutions x ball 2; compactCells: 7 kinds x depth 1..%d on 36 roots (12 base cells x res 0,5,10) + full/partial descendant sets of N in {1,2,5,6,7,8,12,20,49,121,122} base cells (3 selections) at res 1..2(3); polygons: %d shapes x %d anchors x %d scales x %d resolutions x (legacy, experimental x 6 flag values, size x 6) + 6 degenerate polygons (empty / 1- / 2-vertex outer loop, empty holes) x anchors x 6 resolutions; capacities {count-1, count/2, 1, 0} x 4 modes; "
+             "disks from invalid origins (digit 7 at every position, deleted sub-sequence, base cells 122/127, high bit, wrong mode, reserved bits) x k 0..3",
              mc_thorough ? "all 16 resolutions" : "res {0,1,2,5,9,13,3,7,11,15}", mc_thorough ? 7 : 5, mc_thorough ? 16 : 8, mc_thorough ? 5 : 4, mc_thorough ? 11 : 6, g_npa, mc_thorough ? 3 : 2, mc_thorough ? 13 : 8);
     static const int dres[] = {0, 1, 2, 5, 9, 13, 3, 7, 11, 15, 4, 6, 8, 10, 12, 14};
     for (int ri = 0; ri < (mc_thorough ? 16 : 10); ri++) {
@@ -413,6 +476,7 @@ int main(int argc, char **argv) {
         uv_free(&p);
     }
     mc_phase("gridDisk / gridDiskDistances", ph_disk, NULL);
+    mc_phase("gridDisk / gridDiskDistances from invalid origins", ph_disk_invalid, NULL);
     g_dom.n = 0;
     for (int ri = 0; ri < (mc_thorough ? 16 : 8); ri++) {
         U64Vec p = {0};
@@ -435,5 +499,6 @@ int main(int argc, char **argv) {
     mc_phase("compactCells over many base cells", ph_compact_multi, NULL);
     mc_phase("polygon fills", ph_poly, NULL);
     mc_phase("degenerate polygons", ph_poly_degenerate, NULL);
+    mc_phase("polygonToCellsExperimental with too small a capacity", ph_poly_capacity, NULL);
     return mc_finish();
 }
